@@ -92,6 +92,11 @@ func c09Body(r *Run) {
 	if nLate > 0 && nPubDec > 1 && t.Chance(1, 3) {
 		failDec = t.Int(nPubDec - 1)
 	}
+	builtSub := map[int]int{}
+	failSubDec := -1
+	if nLate > 0 && nSubDec > 0 && failDec < 0 && t.Chance(1, 3) {
+		failSubDec = t.Int(nSubDec)
+	}
 	// in some runs an early handler is stopped while the late handlers are being started
 	stopEarly := -1
 	if nLate > 0 && t.Chance(1, 3) {
@@ -130,9 +135,18 @@ func c09Body(r *Run) {
 		for j := 0; j < n; j++ {
 			tag := fmt.Sprintf("s%d", i+j)
 			wantSub = append(wantSub, tag)
-			decs = append(decs, message.MessageTransformSubscriberDecorator(func(m *message.Message) {
+			realS := message.MessageTransformSubscriberDecorator(func(m *message.Message) {
 				m.Metadata.Set("subtrace", strings.TrimPrefix(m.Metadata.Get("subtrace")+","+tag, ","))
-			}))
+			})
+			sidx := i + j
+			decs = append(decs, func(sub message.Subscriber) (message.Subscriber, error) {
+				builtSub[sidx]++
+				if sidx == failSubDec && builtSub[sidx] == nH+1 {
+					r.Fault("decorator-constructor-error")
+					return nil, errors.New("transient subscriber decorator failure")
+				}
+				return realS(sub)
+			})
 		}
 		rig.Router.AddSubscriberDecorators(decs...)
 		i += n
@@ -240,7 +254,7 @@ func c09Body(r *Run) {
 			r.Fault("handler-stop-during-startup-of-another")
 			go hs[stopEarly].h.Stop()
 		}
-		if i == nH && failDec >= 0 {
+		if i == nH && (failDec >= 0 || failSubDec >= 0) {
 			if err := rig.Router.RunHandlers(rig.ctx); err == nil {
 				r.Fail("C09.R3", "RunHandlers swallowed a decorator constructor's error", "")
 			}
